@@ -18,6 +18,7 @@ type lakeCase struct {
 	KeyPath string
 	Desc    bool
 	Unique  bool
+	KeyOnly bool // values are {<key>:K} only (duplicates allowed): equal keys = equal values
 	Mixed   bool
 	Stride  int
 	Thresh  int64
@@ -75,13 +76,14 @@ func splitLoads(r *Rng, vals []string, n int) [][]string {
 }
 
 func genLakeCase(r *Rng) *lakeCase {
-	lc := &lakeCase{KeyPath: "k", Desc: r.Bool(), Unique: r.Chance(1, 2)}
+	lc := &lakeCase{KeyPath: "k", Desc: r.Bool(), Unique: r.Chance(2, 3)}
 	if r.Chance(1, 6) {
 		lc.KeyPath = "n.x"
 	}
 	lc.Stride = Pick(r, []int{0, 1, 2, 64})
 	lc.Thresh = int64(Pick(r, []int{0, 0, 1, 120, 400}))
 	cfg := inputCfg{N: 6 + r.Intn(26), KeyPath: lc.KeyPath, Unique: lc.Unique, KeysMixed: !lc.Unique && r.Chance(2, 3)}
+	cfg.Shapes = lc.Unique && r.Chance(1, 3)
 	lc.Mixed = cfg.KeysMixed
 	lc.Loads = splitLoads(r, genInput(r, cfg), 1+r.Intn(5))
 	if r.Chance(1, 3) {
@@ -118,6 +120,9 @@ func (lc *lakeCase) program(r *Rng) string {
 		}
 		return fmt.Sprintf("from p%s | %sjoin (from q%s) on %s=%s%s%s", left, style, right, k, rk, args, tail)
 	}
+	if lc.Unique && r.Chance(1, 3) {
+		return "from p | " + g.positionalIdiom()
+	}
 	for {
 		p := g.program()
 		if hasLimit(p) && lc.Mixed {
@@ -150,10 +155,16 @@ func checkLake(env *LakeEnv, lc *lakeCase, prog string, par int) (d *diff, a, b 
 	}
 	init := ordState{Class: clsSorted, Keys: []string{lc.KeyPath}, IDIntact: true}
 	if lc.Unique {
-		// distinct, present, non-null keys: the scan order is fully defined
+		// distinct, present, non-null keys (or values determined by their
+		// key): the scan order is fully defined
 		init = ordState{Class: clsSeq, IDIntact: true}
 	}
-	st = judgeCfg{UniqueField: "id", SortDropsTies: true}.seq(a.Analysed, init)
+	uniq := "id"
+	if lc.KeyOnly {
+		// equal keys = equal values: a sort on the key defines the whole sequence
+		uniq = lc.KeyPath
+	}
+	st = judgeCfg{UniqueField: uniq, SortDropsTies: true}.seq(a.Analysed, init)
 	if b.Err != nil {
 		return &diff{"opt-" + errClass(b.Err) + "-" + b.Stage, "plan as analysed succeeds: " + joinShort(a.Out), b.Err.Error()}, a, b, st
 	}
@@ -166,7 +177,7 @@ func checkLake(env *LakeEnv, lc *lakeCase, prog string, par int) (d *diff, a, b 
 // ordered keys, otherwise the merge is free to emit them in any order.  The
 // legs are evaluated sequentially (plan as analysed: ordered scan) for this.
 func mergeKeyCheck(env *LakeEnv, lc *lakeCase, final dag.Seq) (bad string) {
-	if !lc.Unique {
+	if !lc.Unique || lc.KeyOnly {
 		return ""
 	}
 	for i := 0; i+1 < len(final); i++ {
@@ -268,6 +279,56 @@ var lakeSeeded = []string{
 	"from p | fuse | head 3",
 	"from p | fork ( => where a > 1 => where a <= 1 ) | sort k,id",
 	"from p | cut c | rename k:=c | count() by k",
+	// a whole-stream / position-dependent operator (fuse, head, tail, uniq)
+	// followed by a consumer that does not itself need ordered input: the
+	// scan must still be ordered, and the operator must not be copied into
+	// the parallel legs without a final instance
+	"from p | fuse | sort k",
+	"from p | fuse | sort -r c,id",
+	"from p | fuse | count() by typeof(this)",
+	"from p | fuse | sum(c) by a",
+	"from p | where c > 3 | fuse | sort id",
+	"from p | fuse",
+	"from p | head 7 | sort c,id",
+	"from p | head 7 | count() by a",
+	"from p | where c > 3 | head 6 | sum(c)",
+	"from p | tail 7 | sort c,id",
+	"from p | tail 6 | count() by a",
+	"from p | put d:=c | tail 5 | sort id",
+	"from p | uniq | sort c,id",
+	"from p | head 9 | fuse | sort k",
+	"from p | drop b | head 5 | sort -r id",
+	"from p | sort c,id | fuse | head 5",
+	"from p | count() by a | sort a | head 2",
+}
+
+// The same on a pool whose values are determined by their key ({k:K}, with
+// duplicates), so that uniq has something to do and the scan order of equal
+// keys does not matter.
+var lakeSeededShapes = []string{
+	"from p | fuse | sort k",
+	"from p | fuse | sort -r id",
+	"from p | fuse | count() by typeof(this)",
+	"from p | fuse | sum(c) by a",
+	"from p | where k > 5 | fuse | sort id",
+	"from p | fuse",
+	"from p | fuse | head 4",
+	"from p | head 10 | fuse | sort k",
+	"from p | tail 10 | fuse | count() by typeof(this)",
+	"from p | put d:=1 | fuse | sort k",
+	"from p | sort k | fuse | sort id",
+	"from p | sort -r id | fuse | sort k",
+}
+
+var lakeSeededKeyOnly = []string{
+	"from p | uniq | count()",
+	"from p | uniq -c | sort k",
+	"from p | uniq | sort -r k | head 4",
+	"from p | uniq | count() by k | sort k",
+	"from p | where k > 2 | uniq | sum(k)",
+	"from p | uniq",
+	"from p | head 6 | count() by k",
+	"from p | tail 5 | sum(k)",
 }
 
 func (c *c07) lakeSeededUnit(r *Rng) {
@@ -283,6 +344,40 @@ func (c *c07) lakeSeededUnit(r *Rng) {
 		for _, prog := range lakeSeeded {
 			c.lakeCase(env, lc, prog, 1)
 			c.lakeCase(env, lc, prog, 3)
+		}
+		// nearly disjoint shapes spread over loads with interleaved key ranges:
+		// the fused type depends on the order in which the scan delivers them
+		sh := &lakeCase{KeyPath: "k", Desc: desc, Unique: true, Stride: 1, Thresh: 0}
+		shVals := genInput(r, inputCfg{N: 30, KeyPath: "k", Unique: true, Shapes: true})
+		sh.Loads = make([][]string, 3)
+		for i, v := range shVals {
+			sh.Loads[i%3] = append(sh.Loads[i%3], v)
+		}
+		c.mark(map[string]any{"oracle": "lake", "phase": "build", "pool": sh})
+		env, err = sh.build()
+		if err != nil {
+			c.res.Count("lake:build-error")
+			return
+		}
+		for _, prog := range lakeSeededShapes {
+			c.lakeCase(env, sh, prog, 1)
+			c.lakeCase(env, sh, prog, 2)
+		}
+		ko := &lakeCase{KeyPath: "k", Desc: desc, Unique: true, KeyOnly: true, Stride: 1, Thresh: 0}
+		var vals []string
+		for i := 0; i < 36; i++ {
+			vals = append(vals, fmt.Sprintf("{k:%d}", r.Intn(9)))
+		}
+		ko.Loads = splitLoads(r, vals, 5)
+		c.mark(map[string]any{"oracle": "lake", "phase": "build", "pool": ko})
+		env, err = ko.build()
+		if err != nil {
+			c.res.Count("lake:build-error")
+			return
+		}
+		for _, prog := range lakeSeededKeyOnly {
+			c.lakeCase(env, ko, prog, 1)
+			c.lakeCase(env, ko, prog, 2)
 		}
 	}
 }
@@ -327,6 +422,9 @@ func (c *c07) lakeCase(env *LakeEnv, lc *lakeCase, prog string, par int) {
 	}
 	res.Evaluations++
 	res.Count(tag + ":class-" + st.Class.String())
+	if c.mc != nil && b.Err == nil {
+		c.mc.addLake(a.Analysed, b.Final, lc.KeyPath, lc.Desc)
+	}
 	changed := dagText(a.Analysed) != dagText(b.Final)
 	if len(a.Out) > 0 && changed && st.Class != clsAmb {
 		c.distinct(fmt.Sprintf("%s|%s|%s|par%d", tag, opKinds(a.Analysed), lc.layout(), par))
